@@ -71,15 +71,21 @@ def effectPath : Effect → List SPath
   | .mkdir p => [p]
   | .write p _ => [p]
   | .copy _ d => [d]
+  | .copyInto _ d n => [d, d.child n]
   | .convert _ d => [d]
   | .job o _ => [o]
   | .remove p => [p]
 
-def treePaths {α : Type} : Tree α → List SPath
-  | .ret _ => []
-  | .cmd _ _ effs ok fail => effs.flatMap effectPath ++ treePaths ok ++ treePaths fail
-  | .ask _ y n => treePaths y ++ treePaths n
-  | .eff e next => effectPath e ++ treePaths next
+/-- the paths of the effects met on the branch `interp` takes (same decisions as `interp`) -/
+def walkedPaths {α : Type} (o : Oracle) (inv : Nat) : Tree α → Dyn → List SPath
+  | .ret _, _ => []
+  | .cmd c pre effs ok fail, d =>
+    let idx := d.log.length
+    let s := cmdStatus o d.fs idx c pre
+    if s = 0 then effs.flatMap effectPath ++ walkedPaths o inv ok { fs := applyEffs inv idx d.fs effs, log := d.log ++ [(c, 0)] }
+    else walkedPaths o inv fail { d with log := d.log ++ [(c, s)] }
+  | .ask q y n, d => if answer o d.fs q then walkedPaths o inv y d else walkedPaths o inv n d
+  | .eff e next, d => effectPath e ++ walkedPaths o inv next { d with fs := applyEff inv d.log.length d.fs e }
 
 def strList (j : Json) : Except String (List String) := do
   let a ← j.getArr?
@@ -128,9 +134,9 @@ def doRun (j : Json) : Except String Json := do
         | .globPrefix v pre => (renderVal ρ v).startsWith pre
         | _ => false }
   let out := run script i o invId fs₀
-  let paths := (treePaths (scriptTree script i)).eraseDups
+  let paths := (walkedPaths o invId (scriptTree script i) { fs := fs₀, log := [] }).eraseDups
   let changed := paths.filterMap fun p =>
-    if out.fs p = fs₀ p then none
+    if (nodeToJson ρ (out.fs p)).compress == (nodeToJson ρ (fs₀ p)).compress then none
     else some (renderPath ρ p, Json.mkObj [("before", nodeToJson ρ (fs₀ p)), ("after", nodeToJson ρ (out.fs p))])
   let log := out.log.map fun (c, s) =>
     let argv := c.argv.map (renderVal ρ)
